@@ -1,7 +1,8 @@
 // vrun: driver of the runtime-monitoring checks.
-//   vrun check <ID> --tier quick|thorough
-//   vrun replay <path>
-//   vrun list
+//
+//	vrun check <ID> --tier quick|thorough
+//	vrun replay <path>
+//	vrun list
 package main
 
 import (
